@@ -12,7 +12,7 @@ Extraction "model.ml"
   iterate_table
   zxy_to_id id_to_zxy parent_id
   relevant_entries reencode merge_ranges plan_ok budget_f32 total_len extract_model b32_of_bits
-  macro xinit pending_calls status_body CVersion Model.Server.init
+  macro xinit pending_calls status_body resp_headers CVersion Model.Server.init
   serve_http Ascii.N_of_ascii
   read_mock read_file read_http origin adapter_class
   route_of file_for_key
